@@ -265,6 +265,13 @@ def export_geogram_ascii(mesh : RawMeshData, path):
         if hasattr(mesh, "faces") and not mesh.faces.empty():
             n_face = len(mesh.faces)
             f.write(f"[ATTS]\n\"GEO::Mesh::facets\"\n{n_face}\n")
+            if any(len(face)!=3 for face in mesh.faces):
+                # faces are not all triangles: the first corner of each face has to be provided
+                f.write("[ATTR]\n\"GEO::Mesh::facets\"\n\"GEO::Mesh::facets::facet_ptr\"\n\"index_t\"\n4\n1\n")
+                ptr = 0
+                for face in mesh.faces:
+                    f.write(f"{ptr}\n")
+                    ptr += len(face)
             for attr_key in mesh.faces.attributes:
                 attr = mesh.faces.get_attribute(attr_key)
                 export_attribute(f, n_face, "GEO::Mesh::facets", attr, attr_key)
@@ -291,6 +298,16 @@ def export_geogram_ascii(mesh : RawMeshData, path):
         if hasattr(mesh, "cells") and not mesh.cells.empty():
             n_cells = len(mesh.cells)
             f.write("[ATTS]\n\"GEO::Mesh::cells\"\n{}\n".format(n_cells))
+            if any(len(cell)!=4 for cell in mesh.cells):
+                # cells are not all tetrahedra: the type (0 = tet, 1 = hex) and the first corner of each cell have to be provided
+                f.write("[ATTR]\n\"GEO::Mesh::cells\"\n\"GEO::Mesh::cells::cell_type\"\n\"char\"\n1\n1\n")
+                for cell in mesh.cells:
+                    f.write("{}\n".format({4:0, 8:1}[len(cell)]))
+                f.write("[ATTR]\n\"GEO::Mesh::cells\"\n\"GEO::Mesh::cells::cell_ptr\"\n\"index_t\"\n4\n1\n")
+                ptr = 0
+                for cell in mesh.cells:
+                    f.write(f"{ptr}\n")
+                    ptr += len(cell)
             for attr_key in mesh.cells.attributes:
                 attr = mesh.cells.get_attribute(attr_key)
                 export_attribute(f, n_cells, "GEO::Mesh::cells", attr, attr_key)
@@ -307,13 +324,18 @@ def export_geogram_ascii(mesh : RawMeshData, path):
                 export_attribute(f, n_corners, "GEO::Mesh::cell_corners", attr, attr_key)
                    
             # Cell faces
-            n_cell_faces = sum([len(c) for c in mesh.cells])
-            cell_adj = mesh.cell_faces.get_attribute("adjacent_cell")
-            f.write("[ATTR]\n\"GEO::Mesh::cell_corners\"\n\"GEO::Mesh::cell_faces::adjacent_cell\"\n\"index_t\"\n4\n1\n")
-            for x in cell_adj:
-                f.write(f"{x}\n")
+            n_faces_of_cell = {4:4, 8:6}
+            n_cell_faces = sum([n_faces_of_cell[len(c)] for c in mesh.cells])
+            f.write("[ATTS]\n\"GEO::Mesh::cell_facets\"\n{}\n".format(n_cell_faces))
+            if mesh.cell_faces.has_attribute("adjacent_cell"):
+                # attribute 'adjacent_cell' is indexed by (cell, local face) pairs
+                cell_adj = mesh.cell_faces.get_attribute("adjacent_cell")
+                f.write("[ATTR]\n\"GEO::Mesh::cell_facets\"\n\"GEO::Mesh::cell_facets::adjacent_cell\"\n\"index_t\"\n4\n1\n")
+                for iC,cell in enumerate(mesh.cells):
+                    for iF in range(n_faces_of_cell[len(cell)]):
+                        f.write(f"{cell_adj[(iC,iF)]}\n")
 
             for attr_key in mesh.cell_faces.attributes:
                 if attr_key=="adjacent_cell" : continue
                 attr = mesh.cell_faces.get_attribute(attr_key)
-                export_attribute(f, n_cell_faces, "GEO::Mesh::cell_faces", attr, attr_key)
+                export_attribute(f, n_cell_faces, "GEO::Mesh::cell_facets", attr, attr_key)
